@@ -41,6 +41,21 @@ class ReSub(ReBase):
     pass
 
 
+class Tagged:
+    """printed through PREDICATE printers: two predicates overlap (the first-registered accepts only n > 10, the
+    second every Tagged), a third accepts only TaggedSub: which one prints a value must not depend on which
+    values were printed before"""
+    def __init__(self, n):
+        self.n = n
+
+    def __repr__(self):
+        return 'Tagged(%r)' % (self.n,)
+
+
+class TaggedSub(Tagged):
+    pass
+
+
 class Weird:
     """repr is not an expression: a struct sequence holding one cannot have its field names
     recovered from its repr"""
@@ -54,7 +69,7 @@ class Shade(enum.Enum):
 
 
 Point = collections.namedtuple('Point', ['x', 'y'])
-for _c in (LazyA, LazyB, Eager, Shade, Point, Weird, ReBase, ReSub):
+for _c in (LazyA, LazyB, Eager, Shade, Point, Weird, ReBase, ReSub, Tagged, TaggedSub):
     _c.__module__ = 'c19corpus'
 
 
@@ -76,6 +91,18 @@ def register():
     @register_pretty('c19corpus.ReBase')
     def _pr2(value, ctx):
         return pretty_call(ctx, type(value), 'second', value.x)
+
+    @register_pretty(predicate=lambda v: isinstance(v, Tagged) and isinstance(v.n, int) and v.n > 10)
+    def _pt_big(value, ctx):
+        return pretty_call(ctx, type(value), big=value.n)
+
+    @register_pretty(predicate=lambda v: type(v) is TaggedSub)
+    def _pt_sub(value, ctx):
+        return pretty_call(ctx, type(value), sub=value.n)
+
+    @register_pretty(predicate=lambda v: isinstance(v, Tagged))
+    def _pt_any(value, ctx):
+        return pretty_call(ctx, type(value), value.n)
 
 
 def address_free(t, in_set=False):
@@ -148,6 +175,8 @@ def build():
         [b"it's " * 30, b"it's " * 30 + b'"q" "q" ' * 30],
         ReSub([1]), ReBase(2), [ReSub(3), ReBase(4)], LazyA([1, 2]), LazyB({'k': LazyA(1)}), Eager((1, LazyB(2))), [LazyB(1), time.gmtime(86400)],
         {'nested': [Shade.LIGHT, Point(LazyA(0), None)], 'words ' * 8: 'long string value ' * 6},
+        Tagged(1), Tagged(50), TaggedSub(2), TaggedSub(99), [Tagged(11), Tagged(10)], {'t': TaggedSub([Tagged(500)])},
+        Tagged('x'),
     ]
     for v in std:
         vals.append(('std', v))
